@@ -132,7 +132,8 @@ DEVIATIONS = [
     ("MCMutCloseNoRelease", "SlotsRestored", SMALL),
     ("MCMutExcept", "OnlyUrllib3Errors", SMALL),
     ("MCMutFullNoClose", "NoOrphanSocket", SMALL),
-    ("MCMutReleaseKeeps", "NoDuplicate", dict(SMALL, ns="{2}", first="MCTiny")),
+    # the second give-back of the same connection breaks the accounting (and, with room in the queue, duplicates it)
+    ("MCMutReleaseKeeps", ("NoDuplicate", "SlotsConserved"), dict(SMALL, ns="{2}", first="MCTiny")),
     ("MCMutDropped", "BlockBound", SMALL),      # the forgotten socket first shows as one connection too many
 ]
 
@@ -518,6 +519,31 @@ def _absorb(rep, findings, outs, counters):
             rep.violation(clause, what, {"kind": "scenario", "scenario": sc, "trace_prefix": prefix})
 
 
+def _check_gates(rep, outs, covplan, devs):
+    # ---- stage 1a: coverage read back (vacuity gate)
+    cov = [o for o in outs if o["kind"] == "cov"][0]
+    rep.stage1.append({"run": "MC_Pool unsharded, -coverage 1, " + json.dumps(covplan), "distinct_states": cov["distinct"],
+                       "states_generated": cov["generated"], "depth": cov["depth"], "wall_s": round(cov["wall"], 2)})
+    if cov["violated"] or cov["error"]:
+        rep.violation("ModelViolatesRules", f"TLC: {cov['violated'] or cov['error']} on the Model with KnownDefects = {{}}", None)
+    missing = [a for a in ACTIONS if cov["coverage"].get(a, (0, 0))[1] == 0]
+    if missing:
+        raise tlc.MachineryError(f"vacuous model: actions never taken {missing}")
+    rep.extra["action_coverage"] = {a: cov["coverage"][a][1] for a in ACTIONS}
+    # ---- stage 1b: named deviations must be caught by the expected clause
+    dev_res = {}
+    for o in outs:
+        if o["kind"] == "dev":
+            dev_res[o["const"]] = o["violated"]
+            want = (o["clause"],) if isinstance(o["clause"], str) else tuple(o["clause"])
+            if not set(want) & set(o["violated"]):
+                raise tlc.MachineryError(f"deviation {o['const']} should violate {o['clause']}; TLC reported "
+                                         f"{o['violated'] or o['error']}")
+    if len(dev_res) != len(devs):
+        raise tlc.MachineryError("deviation runs missing")
+    rep.extra["deviations_caught"] = dev_res
+
+
 def run(rep):
     quick = rep.tier == "quick"
     findings = known.load("C01")
@@ -543,40 +569,22 @@ def run(rep):
     #   cov   stage 1a: the unsharded model with -coverage 1 (vacuity gate, independent count of Finish states)
     #   dev   stage 1b: a named deviation that TLC must refute with the expected clause
     #   rand  seeded random histories beyond the bound (stages 3 + 4)
-    tasks = [("cov", (covplan, 2 if k > 2 else 1))]
+    gates = [("cov", (covplan, 2 if k > 2 else 1))] + [("dev", d) for d in devs]
+    tasks = []
     if quick:      # small plans: one task per shard runs them all (fewer JVM start-ups)
         tasks += [("emit", (plans, k, s)) for s in range(k)]
     else:
         for name, plan in sorted(plans, key=lambda np: -int(np[1]["maxreqs"])):
             tasks += [("emit", ([(name, plan)], k, s)) for s in range(k)]
-    tasks += [("dev", d) for d in devs]
     tasks += [("rand", (rep.seed * 100003 + c, per)) for c in range(chunks)]
     with mp.Pool(k) as pool:
+        pg = pool.map_async(_task, gates, chunksize=1)
         pending = pool.map_async(_task, tasks, chunksize=1)
         rep.extra["monitor_selftest"] = monitor_selftest()        # meanwhile, in the parent
-        outs = pending.get()
-    # ---- stage 1a: coverage read back (vacuity gate)
-    cov = [o for o in outs if o["kind"] == "cov"][0]
-    rep.stage1.append({"run": "MC_Pool unsharded, -coverage 1, " + json.dumps(covplan), "distinct_states": cov["distinct"],
-                       "states_generated": cov["generated"], "depth": cov["depth"], "wall_s": round(cov["wall"], 2)})
-    if cov["violated"] or cov["error"]:
-        rep.violation("ModelViolatesRules", f"TLC: {cov['violated'] or cov['error']} on the Model with KnownDefects = {{}}", None)
-    missing = [a for a in ACTIONS if cov["coverage"].get(a, (0, 0))[1] == 0]
-    if missing:
-        raise tlc.MachineryError(f"vacuous model: actions never taken {missing}")
-    rep.extra["action_coverage"] = {a: cov["coverage"][a][1] for a in ACTIONS}
-    finish_expected = cov["coverage"]["Finish"][0]
-    # ---- stage 1b: named deviations must be caught by the expected clause
-    dev_res = {}
-    for o in outs:
-        if o["kind"] == "dev":
-            dev_res[o["const"]] = o["violated"]
-            if o["clause"] not in o["violated"]:
-                raise tlc.MachineryError(f"deviation {o['const']} should violate {o['clause']}; TLC reported "
-                                         f"{o['violated'] or o['error']}")
-    if len(dev_res) != len(devs):
-        raise tlc.MachineryError("deviation runs missing")
-    rep.extra["deviations_caught"] = dev_res
+        gouts = pg.get()
+        _check_gates(rep, gouts, covplan, devs)                   # fail fast: before the long batch is awaited
+        outs = gouts + pending.get()
+    finish_expected = [o for o in outs if o["kind"] == "cov"][0]["coverage"]["Finish"][0]
     # ---- stage 1 (sharded) + 2/3/4 per plan
     eo = [o for o in outs if o["kind"] == "emit"]
     for name, plan in plans:
